@@ -241,6 +241,49 @@ Example C19_nameset_witness :
   ns_names (ns_remove_nums s [0; 1]) = [9].
 Proof. vm_compute. repeat split. Qed.
 
+(* The string memory of a NameSet (all names zero-terminated in one char array, the DataSet element of a name is its
+   offset).  Memory operations change no observable: memPack() - which rewrites the names in NUMBER order, an order
+   that differs from their order in memory after removals - and memRemax() leave the memory well formed and every name
+   reads back unchanged; memPack() leaves exactly the bytes of the live names in use. *)
+Theorem C19_nameset_mempack_invisible :
+  forall (order : list Z) (st : nmem), nm_wf order st ->
+    nm_wf order (nm_pack order st) /\
+    (forall id, In id order -> nm_name (nm_pack order st) id = nm_name st id) /\
+    nm_used (nm_pack order st) <= nm_used st /\ nm_max (nm_pack order st) = nm_max st /\
+    nm_used (nm_pack order st) = fold_right (fun id a => zlen (nstr id) + 1 + a) 0 order.
+Proof. exact nm_pack_spec. Qed.
+Print Assumptions C19_nameset_mempack_invisible.
+
+Theorem C19_nameset_memremax_invisible :
+  forall (order : list Z) (st : nmem) (m : Z), nm_wf order st ->
+    nm_wf order (nm_remax st m) /\ (forall id, In id order -> nm_name (nm_remax st m) id = nm_name st id) /\
+    nm_used (nm_remax st m) = nm_used st /\ nm_max (nm_remax st m) = Z.max m (nm_used st).
+Proof. exact nm_remax_spec. Qed.
+Print Assumptions C19_nameset_memremax_invisible.
+
+(* every name of a well-formed memory reads back as its own characters; add() (which packs and grows the memory by
+   itself when the name does not fit) stores the new name and changes no other; removals only forget names *)
+Theorem C19_nameset_strings :
+  (forall order st id, nm_wf order st -> In id order -> nm_name st id = nstr id) /\
+  (forall setmax mmax, 0 <= setmax -> nm_wf [] (nm_init setmax mmax)) /\
+  (forall order st id, nm_wf order st -> 0 <= id -> ~ In id order ->
+     nm_wf (order ++ [id]) (nm_add order st id) /\ nm_name (nm_add order st id) id = nstr id /\
+     (forall other, In other order -> nm_name (nm_add order st id) other = nm_name st other)) /\
+  (forall order st rem, nm_wf order st -> NoDup rem -> (forall id, In id rem -> In id order) ->
+     nm_wf rem (nm_keep rem st) /\ (forall id, In id rem -> nm_name (nm_keep rem st) id = nm_name st id)).
+Proof. exact (conj nm_name_wf (conj nm_init_wf (conj nm_add_spec nm_keep_spec))). Qed.
+Print Assumptions C19_nameset_strings.
+
+(* the situation of the seeded in-place memPack: names a, bb, ccc, aaaaaaaaaa; the first one removed (the long last
+   name takes number 0); packing in number order *)
+Example C19_nameset_mempack_witness :
+  let st0 := nm_init 2 64 in
+  let st := nm_keep [9; 1; 2] (nm_add [0; 1; 2] (nm_add [0; 1] (nm_add [0] (nm_add [] st0 0) 1) 2) 9) in
+  let p := nm_pack [9; 1; 2] st in
+  nm_used st = 20 /\ nm_used p = 18 /\ nm_off p = [(9, 0); (1, 11); (2, 14)] /\
+  nm_name p 9 = nstr 9 /\ nm_name p 1 = nstr 1 /\ nm_name p 2 = nstr 2.
+Proof. vm_compute. repeat split. Qed.
+
 (* SVSet / LPRowSet / LPColSet grow by themselves: ensurePSVec makes room without changing the set, so an insertion
    always succeeds and behaves like DataSet::add *)
 Theorem C19_svset_add :
